@@ -1157,7 +1157,9 @@ func (x *Placeholder) Set(val Native) error {
 	}
 
 	// Replace all previously written placeholders with the final value.
-	x.pdf.w.Flush()
+	if err := x.pdf.w.Flush(); err != nil {
+		return err
+	}
 	fill := x.pdf.origW.(io.WriteSeeker)
 	currentPos, err := fill.Seek(0, io.SeekCurrent)
 	if err != nil {
